@@ -21,6 +21,12 @@ state machine (sub-actions in the order of prepare_run / RunInfo.create, abstrac
    is the description TLC judged); and the call side pipeline(out, **kw) with a dropped or an added keyword (missing
    argument / surplus keyword must be reported before any user function runs).  TLC exhibits the implementation-shaped
    orderings (storage "late"/"any", keywords "late") as counterexamples of RejectIsPure / OnlyReject.
+5. Faults at a NON-FIRST output of a function with a tuple output (family tuple_output, a TLC process of its own over the
+   C01 cases with a second output and a mapped consumer): the consumer re-wired to the sibling output and then given the
+   axis-name faults, the k-th output spec / output name given the signature fault / the rename collision.  Operator
+   default_pair: two functions sharing a root argument declare two different defaults out of {None, 0, an ordinary value}
+   in both orders; the harness hands None and 0 to the real code as the Python objects (LITERALS), after checking that
+   they encode back to the term TLC judged.
 """
 from __future__ import annotations
 
@@ -43,7 +49,7 @@ from .. import build, gen_map, pmap
 from ..build import desc_to_tla
 from ..ctx import Ctx
 from ..tlc import MachineryError, run_tlc
-from ..terms import from_json
+from ..terms import from_json, to_json
 from ..tracekit import parse_prints, validate_traces
 
 PROPERTY = "C12"
@@ -54,13 +60,15 @@ INVS = "InvRejectIsPure InvNoCodeBeforeAccept InvOnlyReject InvValidAccepted Inv
 MCFG = """SPECIFICATION MSpec
 CONSTANTS MaxSize = {maxsize} RichM = {richm} ShardM = {shardm} NShardsM = {nshardsm}
           N = {n} RichP = {richp} ShardP = {shardp} NShardsP = {nshardsp} StorageCheck = "{storage_check}"
-          KwargCheck = "{kwarg_check}" Families = {{{families}}}
+          KwargCheck = "{kwarg_check}" ShardT = {shardt} NShardsT = {nshardst} Families = {{{families}}}
 INVARIANT {invs}
 """
 FAMILIES_N2 = ("basic", "storage_dict", "post_map", "post_call", "call_kw", "illformed_call", "illformed_run_func")   # everything
 FAMILIES_N3 = ("post_call", "illformed_call")    # three functions: the faults met through the call side, every output
+FAMILIES_TUPLE = ("tuple_output",)               # faults at a non-first output of a tuple output (universe of its own)
+NSHARDS_T = 64                                   # every residue of MC_Validity!TupleKey is inhabited (6 .. 56 cases)
 TRACE_CONSTANTS = ('MaxSize = 1 RichM = FALSE ShardM = 1 NShardsM = 1 N = 2 RichP = FALSE ShardP = 1 NShardsP = 1 '
-                   'StorageCheck = "early" KwargCheck = "early" Families = {}')   # empty universes; the REQUIRED positions of the checks
+                   'StorageCheck = "early" KwargCheck = "early" ShardT = 0 NShardsT = 1 Families = {}')   # empty universes; the REQUIRED positions of the checks
 NPROC = min(8, os.cpu_count() or 4)
 
 
@@ -91,6 +99,39 @@ def storage_arg(cfg: dict):
     return {("" if not e["key"] else e["key"][0] if len(e["key"]) == 1 else tuple(e["key"])): e["name"] for e in cfg["sdict"]}
 
 
+# Default values that are handed to the real code as the Python objects themselves (everything else stays an opaque Term):
+# the "nothing here"-like values of MC_Validity!DefaultValues.  The table is only a decoder: each entry must encode back
+# (terms.to_json) to exactly the term TLC judged, otherwise the binding is broken (MachineryError).
+LITERALS = {"#none": None, "@0": 0}
+
+
+def literal_default(v: dict) -> tuple[bool, object]:
+    if v["a"] or v["f"] not in LITERALS:
+        return False, None
+    obj = LITERALS[v["f"]]
+    if to_json(obj) != {"f": v["f"], "a": []}:
+        raise MachineryError(f"literal table: {obj!r} does not encode to {v}")
+    return True, obj
+
+
+def make_pipeline(pydesc: dict):
+    """build.make_pipeline, except that literal defaults (None, 0) reach PipeFunc as the Python objects: the function is
+    built without them and gets them through PipeFunc.update_defaults BEFORE the Pipeline is constructed."""
+    from pipefunc import Pipeline
+    if not any(literal_default(v)[0] for fd in pydesc["funcs"] for v in fd["defaults"].values()):
+        return build.make_pipeline(pydesc)
+    funcs = []
+    for fd in pydesc["funcs"]:
+        lit = {p: literal_default(v)[1] for p, v in fd["defaults"].items() if literal_default(v)[0]}
+        pf = build.make_pipefunc(dict(fd, defaults={p: v for p, v in fd["defaults"].items() if p not in lit}))
+        if lit:
+            pf.update_defaults(lit)
+            if any(pf.defaults[p] is not o for p, o in lit.items()):
+                raise MachineryError(f"literal defaults {lit} did not arrive at the PipeFunc: {pf.defaults}")
+        funcs.append(pf)
+    return Pipeline(funcs)
+
+
 def signature_of(pl) -> list:
     return sorted((tuple(f.output_name) if isinstance(f.output_name, tuple) else (f.output_name,), tuple(sorted(f.parameters)))
                   for f in pl.functions)
@@ -113,7 +154,7 @@ def run_request(req: dict, run_folder: str | None, kinds: dict | None = None, ho
             warnings.simplefilter("ignore")
             if how and how["kind"]:
                 base = req["prev"]["desc"]
-                pl = build.make_pipeline(pmap.tla_desc_to_py(base))
+                pl = make_pipeline(pmap.tla_desc_to_py(base))
                 stage = "mutate"
                 fout = next(f["outputs"][0] for f in base["funcs"] if f["name"] == how["f"])
                 if how["kind"] == "rename":
@@ -125,7 +166,7 @@ def run_request(req: dict, run_folder: str | None, kinds: dict | None = None, ho
                 want = sorted((tuple(f["outputs"]), tuple(sorted(f["params"]))) for f in tdesc["funcs"])
                 mismatch = signature_of(pl) != want
             else:
-                pl = build.make_pipeline(pmap.tla_desc_to_py(tdesc))
+                pl = make_pipeline(pmap.tla_desc_to_py(tdesc))
             stage = req.get("entry", "map")
             inp = pmap.inputs_to_py(inputs, kinds)
             if stage == "call":
@@ -142,6 +183,8 @@ def run_request(req: dict, run_folder: str | None, kinds: dict | None = None, ho
                         executor = {("" if not k else k[0] if len(k) == 1 else tuple(k)): pool for k in cfg["ekeys"]}
                 pl.map(inp, run_folder=run_folder, storage=storage_arg(cfg), parallel=cfg["parallel"], cleanup=cfg["cleanup"],
                        executor=executor)
+    except MachineryError:
+        raise
     except Exception as ex:  # noqa: BLE001
         exc = ex
     finally:
@@ -225,6 +268,16 @@ def features(req: dict, how: dict | None = None) -> dict:
             "cleanup": cfg["cleanup"], "folder": cfg["folder"], "storage_dict": bool(sd),
             "executor_form": "none" if not cfg["executor"] else "dict" if cfg.get("ekeys") else "bare",
             "storage_known": all(e["name"] in KNOWN for e in sd) if sd else cfg["storage"] in KNOWN}
+    # the declared defaults in listing order, by kind ("none" / "zero" / "value"), for the arguments declared more than once
+    kinds: dict[str, list[str]] = {}
+    for f in fs:
+        for p_, v in f["defaults"]:
+            kinds.setdefault(p_, []).append({"#none": "none", "@0": "zero"}.get(v["f"], "value"))
+    shared = sorted(">".join(ks) for ks in kinds.values() if len(ks) > 1)
+    if shared:
+        feat["shared_defaults"] = shared[0]
+    if any(len(f["outputs"]) > 1 for f in fs):
+        feat["tuple_output"] = True
     if sd:
         unk = next((k for k, e in enumerate(sd) if e["name"] not in KNOWN), None)
         if unk is not None:
@@ -256,17 +309,18 @@ def report(ctx: Ctx, kind: str, exp: dict, obs: dict, bad: list[str]) -> None:
 
 
 # ---- TLC ------------------------------------------------------------------------------------------------------------
-def mcfg(shardm: int, nshardsm: int, shardp: int, nshardsp: int, n: int = 2, families: tuple = FAMILIES_N2, *,
-         maxsize: int = 2, rich: bool = False, storage_check: str = "early", kwarg_check: str = "early",
+def mcfg(shardm: int, nshardsm: int, shardp: int, nshardsp: int, n: int = 2, families: tuple = FAMILIES_N2,
+         shardt: int = 0, nshardst: int = 1, *, maxsize: int = 2, rich: bool = False, storage_check: str = "early", kwarg_check: str = "early",
          invs: str | None = None) -> str:
     return MCFG.format(maxsize=maxsize, richm="TRUE" if rich else "FALSE", shardm=shardm, nshardsm=nshardsm, n=n,
                        richp="TRUE" if rich else "FALSE", shardp=shardp, nshardsp=nshardsp, storage_check=storage_check,
-                       kwarg_check=kwarg_check, families=", ".join(f'"{f}"' for f in families),
+                       kwarg_check=kwarg_check, shardt=shardt, nshardst=nshardst,
+                       families=", ".join(f'"{f}"' for f in families),
                        invs=invs if invs is not None else f"{LAWS} {INVS} Emit")
 
 
 def export_mutants(ctx: Ctx, shards: list[tuple], workers: int, **kw) -> tuple[list[dict], dict]:
-    """shards: (ShardM, NShardsM, ShardP, NShardsP[, N, Families]) per TLC process."""
+    """shards: (ShardM, NShardsM, ShardP, NShardsP[, N, Families[, ShardT, NShardsT]]) per TLC process."""
     def one(k: int):
         return run_tlc("MC_Validity", mcfg(*shards[k], **kw), ctx.workdir(f"m_{k}"), workers=workers,
                        allow_violation=False, timeout=3000, heap="4g")
@@ -275,7 +329,8 @@ def export_mutants(ctx: Ctx, shards: list[tuple], workers: int, **kw) -> tuple[l
     with ThreadPoolExecutor(max_workers=max(1, 8 // workers)) as ex:
         for k, r in enumerate(ex.map(one, range(len(shards)))):
             ctx.add_tlc(r, f"MC_Validity MSpec early, shards M {shards[k][0]}/{shards[k][1]} P {shards[k][2]}/{shards[k][3]}"
-                           + (f" N={shards[k][4]} families={list(shards[k][5])}" if len(shards[k]) > 4 else ""))
+                           + (f" N={shards[k][4]} families={list(shards[k][5])}" if len(shards[k]) > 4 else "")
+                           + (f" T {shards[k][6]}/{shards[k][7]}" if len(shards[k]) > 6 else ""))
             for t, p in parse_prints(r.prints):
                 if t == "CASE":
                     cases.append(p)
@@ -283,6 +338,10 @@ def export_mutants(ctx: Ctx, shards: list[tuple], workers: int, **kw) -> tuple[l
                     stayed[p["op"]] = stayed.get(p["op"], 0) + 1
     if not any(features(c["req"])["mapped"] for c in cases) or all(features(c["req"])["mapped"] for c in cases):
         raise MachineryError("MC_Validity: a universe shard is empty (no mapped / no call-style mutants exported)")
+    if any(len(sh) > 5 and "tuple_output" in sh[5] for sh in shards) and not any(c["op"] == "axis_names_sibling" for c in cases):
+        raise MachineryError("MC_Validity: the tuple-output shard is empty (no axis_names_sibling mutant exported)")
+    if not any(c["op"] == "default_pair" and features(c["req"]).get("shared_defaults", "").startswith("none>") for c in cases):
+        raise MachineryError("MC_Validity: no default_pair mutant in which the FIRST declaration is None was exported")
     cases.sort(key=lambda c: json.dumps(c, sort_keys=True))
     return cases, stayed
 
@@ -473,6 +532,33 @@ def fixed_jobs() -> list[dict]:
         C(sdict=[{"key": [], "name": "file_array"}, {"key": ["y"], "name": "bogus"}], cleanup=False),
         base={"desc": desc_to_tla({"funcs": [_f("f", ["x"], ["y"], "x[i] -> y[i]"), _f("g", ["y"], ["z"])]}),
               "inputs": [["x", _arr("x", 2)]]})
+    # defaults that look like "nothing": None / 0 declared first, second, on both sides of an ordinary value, consistently
+    none, zero = {"f": "#none", "a": []}, _atom("0")
+
+    def shared(label, *dflts):
+        names = ["scale", "total", "other"]
+        funcs = [_f(names[0], ["x", "factor"], ["y"], "x[i] -> y[i]", defaults={"factor": dflts[0]})]
+        funcs += [_f(names[k], ["y" if k == 1 else "z", "factor"], ["z" if k == 1 else "w"], defaults={"factor": d})
+                  for k, d in enumerate(dflts) if k > 0]
+        add(label, funcs, [["x", _arr("x", 2)]])
+    shared("shared default: None declared first, 3 second", none, _atom("3"))
+    shared("shared default: 3 declared first, None second", _atom("3"), none)
+    shared("shared default: None, 3, None", none, _atom("3"), none)
+    shared("shared default: 0 declared first, 3 second", zero, _atom("3"))
+    shared("shared default: None first, 0 second", none, zero)
+    shared("shared default: None and None (accepted)", none, none)
+    shared("shared default: 0, 0, 0 (accepted)", zero, zero, zero)
+    # producer / consumer disagreement about the SECOND output of a tuple output
+    outer = _f("outer", ["x", "y"], ["a", "b"], "x[i], y[j] -> a[i, j], b[i, j]")
+    use_a = _f("use_a", ["a"], ["c"], "a[i, j] -> c[i, j]")
+    xy = [["x", _arr("x", 2)], ["y", _arr("y", 3)]]
+    add("tuple output: consumer of the 2nd output swaps the axis names", [outer, use_a, _f("use_b", ["b"], ["e"], "b[j, i] -> e[j, i]")], xy)
+    add("tuple output: consumer of the 2nd output swaps the axis names, consumer listed first",
+        [_f("use_b", ["b"], ["e"], "b[j, i] -> e[j, i]"), outer], xy)
+    add("tuple output: consumer of the 1st output swaps the axis names", [outer, _f("use_a2", ["a"], ["d"], "a[j, i] -> d[j, i]")], xy)
+    add("tuple output: consumer of the 2nd output renames an axis", [outer, _f("use_b", ["b"], ["e"], "b[i, k] -> e[i, k]")], xy)
+    add("tuple output: consumer of the 2nd output uses the producer's axes (accepted)",
+        [outer, use_a, _f("use_b", ["b"], ["e"], "b[i, j] -> e[i, j]")], xy)
     return ex
 
 
@@ -511,7 +597,8 @@ def mutate_random(rng: random.Random, tdesc: dict, inputs: list) -> tuple[str, d
     outs = [o for f in fs for o in f["outputs"]]
     op = rng.choice(["dropped_input", "added_input", "unknown_storage", "executor_without_parallel", "resized_axis",
                      "changed_rank", "rename_collision", "added_edge", "axis_names", "mapspec_signature", "none",
-                     "unknown_storage_in_dict", "call_dropped_kw", "call_added_kw", "rename_collision_call", "added_edge_call"])
+                     "unknown_storage_in_dict", "call_dropped_kw", "call_added_kw", "rename_collision_call", "added_edge_call",
+                     "default_pair", "default_pair_call"])
     cfg: dict = {}
     via_call = op.endswith("_call") and not op.startswith("call_")   # a construction fault, then a call of any output
     if via_call:
@@ -573,6 +660,20 @@ def mutate_random(rng: random.Random, tdesc: dict, inputs: list) -> tuple[str, d
         a = rng.choice([x for x in s["axes"] if x != ":"])
         for t in f["ms"]["ins"] + f["ms"]["outs"]:
             t["axes"] = ["q" if x == a else x for x in t["axes"]]
+    elif op == "default_pair":
+        def declarable(f, q):
+            return (q in f["params"] and q not in outs and q not in {b for b, _ in f["bound"]}
+                    and q not in {sp["name"] for sp in f["ms"]["ins"]})
+        cand = sorted({q for f in fs for q in f["params"] if sum(declarable(g, q) for g in fs) >= 2})
+        if not cand:
+            return None
+        q = rng.choice(cand)
+        two = rng.sample([f for f in fs if declarable(f, q)], 2)
+        vals = rng.sample([{"f": "#none", "a": []}, _atom("0"), _atom("changed")], 2)
+        if rng.random() < 0.2:
+            vals[1] = vals[0]          # a consistent pair: stays valid
+        for f, v in zip(two, vals):
+            f["defaults"] = [pr for pr in f["defaults"] if pr[0] != q] + [[q, v]]
     elif op == "mapspec_signature":
         ms = [f for f in fs if f["has_ms"] and f["ms"]["ins"]]
         if not ms:
@@ -655,7 +756,10 @@ def run(ctx: Ctx) -> None:
                 "of every output; on the call side a dropped or an added keyword; a MapSpec-free base (C02 with two and with "
                 "three functions) with a rename collision / added edge / changed default asked for EVERY output through "
                 "pipeline(out, **kw), run and func with the keywords the needed functions read; mutants that stay valid are "
-                "counted and discarded; "
+                "counted and discarded; two functions sharing a root argument given two different defaults out of {None, 0, "
+                "an ordinary value} in both listing orders; the C01 cases with a tuple output whose mapped consumer is "
+                "re-wired to the SECOND output and then gets the axis-name faults, and the signature fault / rename "
+                "collision placed at the second output; "
                 "plus the repository's pytest.raises examples and seeded random larger mutants judged by TLC; non-trivial = "
                 "the specification calls the request invalid")
     ctx.assumptions = ["TLC and the JSON/term encoding are trusted", "the run folder is compared by content (sha1 per file), "
@@ -666,10 +770,12 @@ def run(ctx: Ctx) -> None:
     if quick:
         # three TLC processes: one C01 shard, one C02 shard with two functions (every family), one C02 shard with three
         # functions (the call-side families; Shard = NShards switches the other universe off)
-        shards = [(s % 48, 48, 16, 16), (48, 48, s % 16, 16), (48, 48, (7 * s) % 256, 256, 3, FAMILIES_N3)]
+        shards = [(s % 48, 48, 16, 16), (48, 48, s % 16, 16), (48, 48, (7 * s) % 256, 256, 3, FAMILIES_N3),
+                  (48, 48, 16, 16, 2, FAMILIES_TUPLE, s % NSHARDS_T, NSHARDS_T)]    # 4th: the tuple-output cases only
     else:
         shards = ([((s + 5 * k) % 16, 16, 4, 4) for k in range(2)] + [(16, 16, k, 4) for k in range(4)]   # two C01 shards; all of C02's N=2
-                  + [(16, 16, (s + 11 * k) % 64, 64, 3, FAMILIES_N3 + ("illformed_run_func",)) for k in range(2)])   # two shards of C02's N=3
+                  + [(16, 16, (s + 11 * k) % 64, 64, 3, FAMILIES_N3 + ("illformed_run_func",)) for k in range(2)]   # two shards of C02's N=3
+                  + [(16, 16, 4, 4, 2, FAMILIES_TUPLE, (s + 3 * k) % 8, 8) for k in range(2)])   # two of eight shards of the tuple-output cases
     # the export and the implementation-shaped orderings are independent TLC runs: side by side (their results are
     # registered afterwards, in a fixed order)
     late = _Deferred(ctx)
@@ -680,7 +786,7 @@ def run(ctx: Ctx) -> None:
         fut_order.result()
     late.flush()
     ctx.exhaustive = False
-    ctx.extra["universe"] = f"shards (ShardM, NShardsM, ShardP, NShardsP) = {shards}"
+    ctx.extra["universe"] = f"shards (ShardM, NShardsM, ShardP, NShardsP[, N, Families[, ShardT, NShardsT]]) = {shards}"
     ctx.extra["mutants_stayed_valid_discarded"] = stayed
     by_op: dict[str, int] = {}
     for c in cases:
